@@ -45,6 +45,14 @@ class _Sub(ast.NodeTransformer):
             return acopy(self.env[n.id])
         return n
 
+    def visit_Attribute(self, n):
+        if isinstance(n.ctx, ast.Load) and isinstance(n.value, ast.Name) \
+                and n.value.id in ("self", "cls"):
+            k = "%s.%s" % (n.value.id, n.attr)
+            if k in self.env:
+                return acopy(self.env[k])
+        return self.generic_visit(n)
+
     def visit_Lambda(self, n):
         return n
 
@@ -159,7 +167,13 @@ def summaries(fn, max_paths=2048, params_env=None):
                         env2[x.id] = ast.Subscript(
                             acopy(v), ast.Constant(i), ast.Load())
                 else:
-                    eff.append((unparse(subst(t, env), 200), v))
+                    tt = unparse(subst(t, env) if not isinstance(
+                        t, ast.Attribute) else t, 200)
+                    eff.append((tt, v))
+                    if isinstance(t, ast.Attribute) and isinstance(
+                            t.value, ast.Name) and t.value.id in ("self",
+                                                                  "cls"):
+                        env2[tt] = v
             return run(rest, conds, env2, eff, k, retk)
         if isinstance(s, ast.AugAssign):
             cur = subst(ast.Name(s.target.id, ast.Load()), env) if isinstance(
@@ -169,8 +183,13 @@ def summaries(fn, max_paths=2048, params_env=None):
                 env2 = dict(env)
                 env2[s.target.id] = v
                 return run(rest, conds, env2, effects, k, retk)
-            return run(rest, conds, env, effects + [
-                (unparse(subst(s.target, env), 200), v)], k, retk)
+            tt = unparse(s.target, 200)
+            env2 = dict(env)
+            if isinstance(s.target, ast.Attribute) and isinstance(
+                    s.target.value, ast.Name) and s.target.value.id in (
+                        "self", "cls"):
+                env2[tt] = v
+            return run(rest, conds, env2, effects + [(tt, v)], k, retk)
         if isinstance(s, ast.Return):
             if retk is not None:
                 retk(conds, env, effects, subst(s.value, env))
